@@ -121,6 +121,18 @@ class SimScorer:
         return self._next(self.shipped.score_final, txt, ts, pp, prod)
 
 
+class FalsySimScorer(SimScorer):
+    """A scorer object that is falsy (a container-like scorer with an empty table): legal,
+    and distinguishes ``scorer is None`` from ``not scorer``."""
+
+    def __len__(self):
+        return 0
+
+
+def _mk_sim(spec, shipped, budget):
+    return (FalsySimScorer if spec.get("falsy") else SimScorer)(spec, shipped, budget)
+
+
 class Snapshots:
     """Registry entries replaced by wrappers that snapshot argument values around the
     real production (no source change; restored on exit)."""
@@ -225,12 +237,15 @@ def _aslist(v):
 def _stream(lib, case, run, kw_extra=None):
     """One simulated run: pull the stream step by step under the scheduler."""
     ts = parse_ts(case["ts"])
-    sim = SimScorer(run["sched"], lib["ctparse"]._DEFAULT_SCORER, case.get("budget", 0))
+    sim = _mk_sim(run["sched"], lib["ctparse"]._DEFAULT_SCORER, case.get("budget", 0))
     sink, trace = [], []
     cands, snaps, changed = [], [], []
     compared = [0]
     exc = None
-    with Snapshots(lib, sink, trace, run.get("skip_prefilter", False)):
+    import contextlib
+    # "light" runs (very deep searches) go without the per-rule-application snapshots
+    with (contextlib.nullcontext() if run.get("light")
+          else Snapshots(lib, sink, trace, run.get("skip_prefilter", False))):
         try:
             gen = lib["ctparse"].ctparse_gen(
                 case["text"], ts, timeout=0, max_stack_depth=run["depth"], scorer=sim,
@@ -265,7 +280,7 @@ def _stream(lib, case, run, kw_extra=None):
 
 def _single(lib, case, run):
     ts = parse_ts(case["ts"])
-    sim = SimScorer(run["sched"], lib["ctparse"]._DEFAULT_SCORER, case.get("budget", 0))
+    sim = _mk_sim(run["sched"], lib["ctparse"]._DEFAULT_SCORER, case.get("budget", 0))
     try:
         r = lib["ctparse"].ctparse(
             case["text"], ts, timeout=0, max_stack_depth=run["depth"], scorer=sim,
@@ -279,7 +294,7 @@ def _single(lib, case, run):
 
 
 def _sched_tag(s):
-    return s["mode"] + (":%d" % s["seed"] if "seed" in s else "")
+    return s["mode"] + (":%d" % s["seed"] if "seed" in s else "") + ("/falsy" if s.get("falsy") else "")
 
 
 def execute(case):
@@ -292,7 +307,8 @@ def execute(case):
               "arg_span_widened": 0, "post_yield_snapshots_compared": 0,
               "re_emitted_with_higher_score": 0, "ties_at_max": 0, "empty_stream": 0,
               "step_budget_exceeded": 0, "model_rule_error": 0, "text_with_labels": 0,
-              "text_with_separators": 0}
+              "text_with_separators": 0, "deep_search_runs": 0,
+              "deep_search_over_64k_scorings": 0}
     n_eval = 0
     sim_time = 0
 
@@ -492,6 +508,11 @@ def execute(case):
                         best[vk] = max(best[vk], c.score)
                     else:
                         best[vk] = c.score
+            if run.get("light"):
+                probes["deep_search_runs"] += 1
+                if r["sim"].n > 65536:
+                    probes["deep_search_over_64k_scorings"] += 1
+                continue   # (a very deep search is run once, as a stream)
             # ---- best: single-result call under the identical score script
             res, exc = _single(lib, case, run)
             n_eval += 1
@@ -547,6 +568,8 @@ def _schedulers(rng, n_random):
         s.append({"mode": rng.choice(["uniform", "uniform", "coarse", "coarse_neg", "tiny",
                                       "close", "huge"]),
                   "seed": rng.randrange(1 << 30)})
+        if rng.random() < 0.12:
+            s[-1]["falsy"] = True
 
     return s
 
@@ -655,7 +678,7 @@ def _texts(rng, n, prop="C15"):
             if rng.random() < 0.5:
                 t = rng.choice(workload.DATES + workload.DOWS + ["at", "from"]) + " " + t
         t = " ".join(t.lower().split()) if rng.random() < 0.9 else " ".join(t.split())
-        if rng.random() < (0.04 if prop == "C15" else 0.08):
+        if rng.random() < (0.06 if prop == "C15" else 0.08):
             # letters that a case-insensitive Unicode match folds together / decomposed umlauts
             t = workload.confuse(rng, t)
         if len(t) > (44 if prop == "C15" else 64):
@@ -667,7 +690,10 @@ def _texts(rng, n, prop="C15"):
             if prop == "C14":
                 # labels touching characters that pre-processing rewrites
                 labs += ["#work\u2013late", "#follow--up", "#(team)", "#a,b", "#x\u2014y"]
-            toks.insert(rng.randint(0, len(toks)), rng.choice(labs))
+            at = rng.randint(0, len(toks))
+            # one label, or a run of two or three (cutting them out leaves a run of blanks)
+            for _ in range(rng.choice([1, 1, 2, 2, 3])):
+                toks.insert(at, rng.choice(labs))
             t = " ".join(toks)
         if prop == "C14" and rng.random() < 0.2 and len(toks) > 1:
             # separators that pre-processing rewrites
@@ -712,6 +738,31 @@ def plan(prop, tier, seed):
         if rng.random() < 0.15:
             c["relative_match_len"] = rng.choice([0.5, 0.8])
         cases.append(c)
+    if prop == "C14":
+        # very deep searches (hundreds of thousands of partial productions in one parse): the
+        # emission history must stay free of not-better repeats however large the search's
+        # own tables grow. One stream per case, no per-rule snapshots, own step budget.
+        for i in range(2 if quick else 24):
+            r = core.stream(core.derive_seed(seed, prop, tier, "deep", i), "workload")
+            # (shapes measured on the unchanged tree: 200 000 - 350 000 scored productions)
+            # (the most ambiguous variant - "morgen" is tomorrow and morning, a day <= 12 is also
+            # an hour and a month - reaches 350 000; quick uses only that one)
+            day = "morgen" if quick or i % 2 else r.choice(["freitag", "montag", "heute"])
+            d, mo, y = r.randint(1, 12 if quick or i % 2 else 28), \
+                r.choice(["mai", "juni", "okt", "märz", "dez"]), r.choice([2020, 2021, 2023])
+            a, b = r.randint(1, 11), r.randint(12, 22)
+            text = r.choice([
+                "%s am %d. %s %d von %d bis %d uhr" % (day, d, mo, y, a, b),
+                "%s am %d. %s %d from %d to %d uhr" % (day, d, mo, y, a, b),
+                "%s am %d. %s %d %d bis %d uhr" % (day, d, mo, y, a, b)])
+            ts = workload.ref_time(r, 2016, 2043).replace(microsecond=0)
+            # under the constant scheduler every repeat of a value is a not-better repeat; the
+            # (slow) shipped model and random scores only in the thorough tier
+            sched = {"mode": "constant"} if quick or i % 3 else r.choice(
+                [{"mode": "shipped"}, {"mode": "coarse", "seed": r.randrange(1 << 30)}])
+            cases.append({"prop": prop, "text": text, "ts": fmt_ts(ts), "cap": STATE_CAP[tier],
+                          "budget": 700000,
+                          "runs": [{"sched": sched, "depth": 0, "light": True}]})
     return cases
 
 
